@@ -64,18 +64,40 @@ type AnonFirst struct {
 	Tags  map[string]Tag2
 }
 
+// container types that contain themselves
+type SelfMap map[string]SelfMap
+type Nest []Nest
+type Doc struct {
+	Name string
+	Kids SelfMap
+	Sub  Nest
+}
+
+// nil pointers to an interface and to a pointer
+type PtrIface struct {
+	P *interface{}
+	Q **Leaf2
+	R [2]*Tag2
+	S [0]Leaf
+}
+
 var c16Types = append(append([]reflect.Type{}, zooTypes...),
 	reflect.TypeOf(SelfRef{}), reflect.TypeOf(MutA{}), reflect.TypeOf(SliceOfSlices{}), reflect.TypeOf(CustomOuter{}),
-	reflect.TypeOf(GNode{}), reflect.TypeOf(WithIface{}), reflect.TypeOf(NamedNode{}), reflect.TypeOf(KeyedMap{}), reflect.TypeOf(AnonFirst{}))
+	reflect.TypeOf(GNode{}), reflect.TypeOf(WithIface{}), reflect.TypeOf(NamedNode{}), reflect.TypeOf(KeyedMap{}), reflect.TypeOf(AnonFirst{}),
+	reflect.TypeOf(Doc{}), reflect.TypeOf(PtrIface{}), reflect.TypeOf(SelfMap{}), reflect.TypeOf(Nest{}))
 
 // the struct and slice types a value of static type t can contain (statically)
 func staticClosure(t reflect.Type, out map[reflect.Type]bool) {
+	staticClosureW(t, out, map[reflect.Type]bool{})
+}
+func staticClosureW(t reflect.Type, out, walked map[reflect.Type]bool) {
 	for t.Kind() == reflect.Ptr {
 		t = t.Elem()
 	}
-	if out[t] {
+	if walked[t] {
 		return
 	}
+	walked[t] = true
 	switch t.Kind() {
 	case reflect.Struct:
 		if t == timeType {
@@ -83,17 +105,17 @@ func staticClosure(t reflect.Type, out map[reflect.Type]bool) {
 		}
 		out[t] = true
 		for i := 0; i < t.NumField(); i++ {
-			staticClosure(t.Field(i).Type, out)
+			staticClosureW(t.Field(i).Type, out, walked)
 		}
 	case reflect.Slice:
 		if t.Elem().Kind() == reflect.Uint8 {
 			return
 		}
 		out[t] = true
-		staticClosure(t.Elem(), out)
+		staticClosureW(t.Elem(), out, walked)
 	case reflect.Map:
-		staticClosure(t.Key(), out)
-		staticClosure(t.Elem(), out)
+		staticClosureW(t.Key(), out, walked)
+		staticClosureW(t.Elem(), out, walked)
 	}
 }
 
@@ -135,6 +157,7 @@ func c16Check(c *ctx, t reflect.Type, witness interface{}, wlabel string, seed u
 		c.fail("extraction from a value panics", in, pm, "")
 		return
 	}
+	xtrCorr(c, witness, tm, nm)
 	// closed: every struct and slice type reachable from the static type
 	need := map[reflect.Type]bool{}
 	staticClosure(t, need)
@@ -225,6 +248,16 @@ func runC16(c *ctx) {
 			out, err := cmd.CombinedOutput()
 			in := map[string]interface{}{"op": "extract", "type": t.String()}
 			b, rerr := os.ReadFile(dir + "/C16.oracle.json")
+			if rerr == nil { // the correspondence cases of the subprocess become ours
+				qs, _ := os.ReadFile(dir + "/C16.cases")
+				as, _ := os.ReadFile(dir + "/C16.impl")
+				ql, al := strings.Split(strings.TrimRight(string(qs), "\n"), "\n"), strings.Split(strings.TrimRight(string(as), "\n"), "\n")
+				if len(qs) > 0 && len(ql) == len(al) {
+					for i := range ql {
+						c.corr(ql[i], al[i])
+					}
+				}
+			}
 			os.RemoveAll(dir)
 			if err != nil || rerr != nil {
 				c.eval(t.String() + "/crash")
@@ -294,6 +327,7 @@ func runC16(c *ctx) {
 		if !fin || pm != "" {
 			c.fail("TypeMapOf does not terminate or panics", in, pm, "")
 		} else {
+			tmofCorr(c, t, tmo)
 			need := map[reflect.Type]bool{}
 			staticClosure(t, need)
 			missingSlice := ""
@@ -335,6 +369,32 @@ func c16Extras(c *ctx) {
 	s.Next = s
 	c.eval("cyclic/SelfRef")
 	c16Check(c, reflect.TypeOf(SelfRef{}), s, "self-loop", 2)
+	// chains of pointers and interface values that lead back to themselves
+	{
+		var x interface{}
+		x = &x
+		c.eval("cyclic/iface-self")
+		var tm map[string]reflect.Type
+		var nm map[string]string
+		fin, pm := withDeadline(5*time.Second, func() { tm, nm = hessian.ExtractTypeNameMap(x) })
+		if !fin || pm != "" {
+			c.fail("extraction from a value does not terminate", map[string]interface{}{"op": "extract-ptr-cycle", "value": "var x interface{}; x = &x"}, pm, "")
+		} else {
+			xtrCorr(c, x, tm, nm)
+		}
+		wi := &WithIface{Any: []interface{}{nil}}
+		wi.Any[0] = &wi.Any[0]
+		c.eval("cyclic/iface-elem-self")
+		fin, pm = withDeadline(5*time.Second, func() { tm, nm = hessian.ExtractTypeNameMap(wi) })
+		if !fin || pm != "" {
+			c.fail("extraction from a value does not terminate", map[string]interface{}{"op": "extract-ptr-cycle", "value": "w.Any[0] = &w.Any[0]"}, pm, "")
+		} else {
+			xtrCorr(c, wi, tm, nm)
+		}
+		c.eval("nil/untyped")
+		tm, nm = hessian.ExtractTypeNameMap(nil)
+		xtrCorr(c, nil, tm, nm)
+	}
 	// types reachable only through interface values
 	w := &WithIface{Any: []interface{}{&OnlyInIface{1}, int32(2), []interface{}{&Inner{1, "x"}}}}
 	c.eval("iface/WithIface")
